@@ -11,7 +11,7 @@
    reference decoder (block recursion over the published COBS, COBS/R, COBS/ZPE schemes,
    CobsModel.v).  [pre] are bytes of earlier frames still in the window. *)
 From MptV Require Import Base.Mem Cobs.CobsModel Cobs.PyModel Cobs.EncProofs Cobs.EncTheorems
-  Cobs.EncProgress Cobs.PyProofs.
+  Cobs.EncProgress Cobs.PyProofs Cobs.TextModel Cobs.TextProofs.
 
 (* the four framings are instances of the variant record the theorems quantify over *)
 Theorem C01_variants_ok :
@@ -60,6 +60,30 @@ Theorem C01_py_roundtrip :
     py_encode_cobs m = body ++ [0%N] /\ sdec v_cobs body = Some m /\ nozero body = true.
 Proof. exact py_roundtrip. Qed.
 
+(* the fifth framing: zero-terminated command text (mpt_encode_string / mpt_decode_command).
+   Encoder: any pieces, any capacity schedule; the window ends with the consumed text and the
+   delimiter, and the text holds no delimiter byte (chunks containing one are refused). *)
+Theorem C01_text_encoder_roundtrip :
+  forall pre m st0 cap0 script,
+    escr st0 = 0 -> edone st0 = length pre ->
+    let r := str_script (mkr st0 pre cap0 m false) script in
+    rdone r = true ->
+    exists consumed, m = consumed ++ rrem r /\ nozero consumed = true /\
+      rbuf r = pre ++ consumed ++ [0%N] /\ text_decode consumed = Some (cmd_header ++ consumed).
+Proof. exact str_roundtrip. Qed.
+
+(* Decoder: such a text, with two consumed bytes in front for the message header the decoder
+   prepends, is delivered in place as header ++ text, and the read position ends behind the
+   delimiter — whatever follows. *)
+Theorem C01_text_decoder_delivers :
+  forall slack m tl, 2 <= length slack -> nozero m = true ->
+    let buf := slack ++ m ++ 0%N :: tl in
+    let '(r, st', buf') := cmd_call (mkt (length slack) 0 0 None) buf in
+    r = TMsg /\ tmsg st' = Some (2 + length m) /\
+    firstn (2 + length m) (skipn (tpos st') buf') = cmd_header ++ m /\
+    tcurr st' = length slack + length m + 1.
+Proof. exact cmd_delivers. Qed.
+
 (* ---- non-vacuity ---- *)
 Example C01_example_split_zpe :
   let r := run_script v_zpe (mkr (mke 0 0 0) [] 0 [65;0;0;66;0]%N false)
@@ -90,3 +114,5 @@ Print Assumptions C01_enc_can_complete.
 Print Assumptions C01_enc_sequence.
 Print Assumptions C01_py_roundtrip.
 Print Assumptions C01_variants_ok.
+Print Assumptions C01_text_encoder_roundtrip.
+Print Assumptions C01_text_decoder_delivers.
